@@ -44,7 +44,7 @@ TARGETS = [
     ]),
     dict(area="TxUtil", rel="vls-core/src/util/transaction_utils.rs", consts=[], externals={}, fns=[
         ("", "expected_commitment_tx_weight", "C05", "C05_gen_commitment_weight", "snippet"),
-        ("", "estimate_feerate_per_kw", "C08", None, "snippet"),
+        ("", "estimate_feerate_per_kw", "C04", "C04_gen_estimate_feerate", "snippet"),
     ]),
     dict(area="Tx", rel="vls-core/src/tx/tx.rs", consts=[], externals={}, fns=[
         ("CommitmentInfo2", "value_to_parties", "C05", "C05_gen_value_to_parties"),
